@@ -1669,6 +1669,9 @@ class Symex:
                                 rv = self.read_lp(q2, rv.term[1], e)
                             res.append((q2, rv))
                     return res
+        # --- std::move / std::forward / std::as_const: the value of the argument
+        if callee in ('std::move', 'std::forward', 'std::as_const') and obj is None and len(e['args']) == 1:
+            return self.eval(e['args'][0], p, ctx)
         # --- unknown call: record as an effect, result opaque
         res = []
         argl = list(e['args'])
